@@ -121,7 +121,46 @@ def _run(fn):
         return ('exc', type(e).__name__, str(e)[:160])
 
 
+def ctor_scenario(cfg) -> List[str]:
+    """Initial values handed to a MODEL's constructor as NumPy arrays of another dtype: every series has the model's dtype
+    (and one element per period) all the same; a wrong length is refused."""
+    L = cfg['L']
+    span = list(range(2000, 2000 + L))
+    bad: List[str] = []
+    o1, o2 = fcont.np, finter.np
+    fcont.np = finter.np = np          # concrete arrays: real NumPy, whatever stand-in the caller installed
+    try:
+        _ctor_body(L, span, bad)
+    finally:
+        fcont.np, finter.np = o1, o2
+    return bad
+
+
+def _ctor_body(L, span, bad) -> None:
+    for mdtype in (float, np.float32, object):
+        for vk in ('int', 'bool', 'float32', 'int8', 'float'):
+            arr = np.full(L, MARK[vk], dtype=NPDT[vk])
+            for how in ('array', 'list', 'scalar'):
+                val = arr if how == 'array' else (arr.tolist() if how == 'list' else MARK[vk])
+                r = _run(lambda: M2(span, dtype=mdtype, X=val, W=val))
+                if r[0] != 'ret':
+                    bad.append(f'M2(span, dtype={np.dtype(mdtype)}, X=<{how} of {vk}>) raised {r[1]}')
+                    continue
+                m = r[1]
+                for n in ('X', 'W'):
+                    a = m[n]
+                    if a.dtype != np.dtype(mdtype) or a.shape != (L,):
+                        bad.append(f'model dtype {np.dtype(mdtype)}: variable {n} initialised from <{how} of {vk}> has dtype {a.dtype}, shape {a.shape}')
+                if m.size != 2 * L or np.asarray(m.values).shape != ((2, L) if L or True else (2, 0)):
+                    bad.append(f'values / size after construction: {np.asarray(m.values).shape}, {m.size}')
+        wrong = _run(lambda: M2(span, dtype=mdtype, X=np.zeros(L + 1)))
+        if wrong[0] != 'exc' and L >= 1:    # (a one-element array stretches over an empty span: nothing to fit, nothing refused)
+            bad.append(f'initial array of length {L + 1} accepted for a span of {L} periods')
+
+
 def scenario(cfg, symbolic: bool, dims: Optional[dict] = None) -> List[str]:
+    if cfg['op'] == 'ctor_arrays':
+        return ctor_scenario(cfg)
     L, op = cfg['L'], cfg['op']
     c, kinds = _make(cfg, symbolic)
     before = {n: c.__dict__['_' + n] for n in c.index}
@@ -365,6 +404,9 @@ def configs(tier: str):
                     continue
                 out.append(cfg9(cls='container', L=L, kinds=('U1', 'str'), strict=False, op=op, operand=od, lab=0, step=None))
                 out.append(cfg9(cls='container', L=L, kinds=('str', 'U1'), strict=False, op=op, operand=od, lab=0, step=None))
+    # models constructed from typed arrays
+    for L in (0, 1, 2, 3):
+        out.append(cfg9(cls='model', L=L, kinds=('float', 'float'), strict=False, op='ctor_arrays', operand=None))
     # linkers made strict through the constructor
     for L in (1, 2):
         for strict in (False, True):
